@@ -78,7 +78,7 @@ DQ = ['Defn', 'dq', 2, ['[', 2, '|', 1, ']'], None, 'def']
 ZERO = ['Defn', 'zero', 0, ['Nil'], None, 'newcommand']
 DROP = ['Defn', 'drop', 2, ['(', 2, ')'], None, 'newcommand']
 DEFS = [FOO, FOP, TW, DQ, ZERO, DROP]
-PREAMBLE = ['cat'] + [['defnode', d] for d in DEFS] + [['newtheorem'], '\n']
+PREAMBLE = ['cat'] + [['defnode', d] for d in DEFS] + [['newtheorem'], ['glsdefs'], '\n']
 
 # constructs without a text child
 INLINES = {
@@ -116,6 +116,10 @@ INLINES = {
     'math_p': ['inline_math', 'z^2.'],
     'math_paren': ['inline_math', 'a', 'en', ['\\(', '\\)']],
     'zero': ['call', ZERO],
+    'gls': ['gls'],
+    'Gls': ['gls', 'Gls', 'Alpha beta'],
+    'GLSpl': ['gls', 'GLSpl', 'ALPHAS'],
+    'glsdesc': ['gls', 'glsdesc', 'a desc'],
     'unknown0': ['unknown', 'zzbar'],
 }
 
@@ -246,6 +250,8 @@ def repeats():
     for name in ('foo1', 'twice', 'fop_default', 'def', 'textbf', 'unknown'):
         w = WRAPPERS[name]
         out.append(('self:%s' % name, doc(w(['cat', T('In'), ' ', w(ATOMS[0]), ' ', T('out')]))))
+    for g in ('gls', 'Gls', 'GLSpl'):
+        out.append(('rep:' + g, doc(INLINES[g], ' ', T('mid'), ' ', INLINES['gls'], ' ', INLINES[g])))
     out.append(('maths8', doc(*sum([[['inline_math', 'x_%d' % i, 'en', ['$', '$'], i], ' ',
                                       T('w%d' % i), ' '] for i in range(8)], []))))
     return out
